@@ -23,6 +23,8 @@
  *                                       block / data of the k-th key (raw: bit i%8 of byte k); unflip takes it back
  *   tamper                              overwrite the superblock area of the device with foreign bytes
  *   e2undo <flags>                      run $E2UNDO <flags> undo dev under iotrace; flags: "-", "-n", "-f", ...
+ *   sweep <dev> <undo> <targets>        damage sweep over an existing undo file: per target line "byte bit mode" flip the bit, run
+ *                                       e2undo (mode 1: -n), take it back; prints "byte bit mode exit writes device_untouched"
  */
 #define _GNU_SOURCE
 #include "config.h"
@@ -251,6 +253,40 @@ static int count_writes(const char *path)
 	return n;
 }
 
+/* run $E2UNDO [flag] undopath devpath under iotrace; returns the exit status, *nw = write-class calls on the device */
+static int run_e2undo(const char *flag, int *nw, int *inc)
+{
+	char tr[600], errf[600], *e2 = getenv("E2UNDO"), *pre = getenv("IOTRACE_SO");
+	int st = 0;
+	pid_t pid;
+	snprintf(tr, sizeof tr, "%s.iotrace", undopath);
+	snprintf(errf, sizeof errf, "%s.stderr", undopath);
+	unlink(tr);
+	pid = fork();
+	if (pid == 0) {
+		char *argv[8]; int ac = 0, fd;
+		argv[ac++] = e2;
+		if (strcmp(flag, "-")) argv[ac++] = (char *)flag;
+		argv[ac++] = undopath; argv[ac++] = devpath; argv[ac] = NULL;
+		setenv("LD_PRELOAD", pre, 1);
+		setenv("VERIF_IOTRACE_TARGET", devpath, 1);
+		setenv("VERIF_IOTRACE_OUT", tr, 1);
+		fd = open(errf, O_WRONLY | O_CREAT | O_TRUNC, 0600);
+		dup2(fd, 1); dup2(fd, 2);
+		execv(e2, argv);
+		_exit(127);
+	}
+	waitpid(pid, &st, 0);
+	{
+		FILE *f = fopen(errf, "r"); char ln[512];
+		while (f && fgets(ln, sizeof ln, f))
+			if (strstr(ln, "Incomplete undo record")) *inc = 1;
+		if (f) fclose(f);
+	}
+	*nw = count_writes(tr);
+	return WIFEXITED(st) ? WEXITSTATUS(st) : 128 + WTERMSIG(st);
+}
+
 int main(void)
 {
 	char line[2048], cmd[64], s1[512], s2[512];
@@ -389,43 +425,41 @@ int main(void)
 			close(fd);
 			line_end(o, "tamper", 0, 0, 0, 1);
 		} else if (!strcmp(cmd, "e2undo")) {
-			char tr[600], errf[600], *e2 = getenv("E2UNDO"), *pre = getenv("IOTRACE_SO");
-			int st = 0, inc = 0, nw;
-			pid_t pid;
+			int inc = 0, nw = 0, rc;
 			s1[0] = 0;
 			sscanf(line, "%*s %511s", s1);
-			snprintf(tr, sizeof tr, "%s.iotrace", undopath);
-			snprintf(errf, sizeof errf, "%s.stderr", undopath);
-			unlink(tr);
 			fflush(o);
-			pid = fork();
-			if (pid == 0) {
-				char *argv[8]; int ac = 0, fd;
-				argv[ac++] = e2;
-				if (strcmp(s1, "-")) argv[ac++] = s1;
-				argv[ac++] = undopath; argv[ac++] = devpath; argv[ac] = NULL;
-				setenv("LD_PRELOAD", pre, 1);
-				setenv("VERIF_IOTRACE_TARGET", devpath, 1);
-				setenv("VERIF_IOTRACE_OUT", tr, 1);
-				fd = open(errf, O_WRONLY | O_CREAT | O_TRUNC, 0600);
-				dup2(fd, 1); dup2(fd, 2);
-				execv(e2, argv);
-				_exit(127);
-			}
-			waitpid(pid, &st, 0);
-			{
-				FILE *f = fopen(errf, "r"); char ln[512];
-				while (f && fgets(ln, sizeof ln, f))
-					if (strstr(ln, "Incomplete undo record")) inc = 1;
-				if (f) fclose(f);
-			}
-			nw = count_writes(tr);
+			rc = run_e2undo(s1, &nw, &inc);
 			fprintf(o, "{\"e\":\"e2undo\",\"a\":%d,\"n\":%d,\"ret\":%d,\"bs\":%d,", !strcmp(s1, "-n") ? 1 : !strcmp(s1, "-f") ? 2 : 0,
-				nw, WIFEXITED(st) ? WEXITSTATUS(st) : 128 + WTERMSIG(st), inc);
+				nw, rc, inc);
 			print_undo(o);
 			fputc(',', o);
 			print_dev(o);
 			fprintf(o, "}\n");
+			fflush(o);
+		} else if (!strcmp(cmd, "sweep")) {
+			/* sweep <dev> <undo> <targets>: per line "byte bit mode": flip, run e2undo (mode 1: -n), take the flip back */
+			FILE *tf;
+			long long by; int bit, mode, fd;
+			if (sscanf(line, "%*s %511s %511s %511s", devpath, undopath, s1) != 3) { fprintf(stderr, "bad sweep\n"); return 2; }
+			tf = fopen(s1, "r");
+			fd = open(undopath, O_RDWR);
+			if (!tf || fd < 0) { perror("sweep"); return 2; }
+			while (fscanf(tf, "%lld %d %d", &by, &bit, &mode) == 3) {
+				unsigned char c, c2;
+				struct stat st0, st1;
+				int inc = 0, nw = 0, rc;
+				if (pread(fd, &c, 1, by) != 1) { fprintf(stderr, "sweep target outside the file\n"); return 2; }
+				c2 = c ^ (1 << bit);
+				pwrite(fd, &c2, 1, by);
+				stat(devpath, &st0);
+				rc = run_e2undo(mode ? "-n" : "-", &nw, &inc);
+				stat(devpath, &st1);
+				pwrite(fd, &c, 1, by);
+				fprintf(o, "%lld %d %d %d %d %d\n", by, bit, mode, rc, nw,
+					st0.st_size == st1.st_size && st0.st_mtim.tv_sec == st1.st_mtim.tv_sec && st0.st_mtim.tv_nsec == st1.st_mtim.tv_nsec);
+			}
+			fclose(tf); close(fd);
 			fflush(o);
 		} else {
 			fprintf(stderr, "unknown command %s\n", cmd);
